@@ -393,8 +393,9 @@ AZ_FIXED = [(52.5, 13.4, 0.0), (52.5, 13.4, 180.0), (-33.9, 151.2, 270.0), (69.6
 def _az_run(case: dict) -> dict:
     env = {'PYTHONPATH': f'{coqrun.REPO}/src:{VERIF}', 'PYTHONHASHSEED': '0', 'PATH': '/usr/bin:/bin', 'TZ': 'UTC'}
     try:
+        extra = [case['direction']] if case.get('kind') == 'elevation' else []
         r = subprocess.run(['/venv/bin/python', '-m', 'harness.prod_az', str(case['lat']), str(case['lon']), str(case['az']),
-                            str(case['dt']), str(AZ_BUDGET)], cwd=VERIF, env=env, capture_output=True, text=True,
+                            str(case['dt']), str(AZ_BUDGET)] + extra, cwd=VERIF, env=env, capture_output=True, text=True,
                            timeout=AZ_BUDGET + 30)
         res, secs = json.loads(r.stdout)
     except Exception as e:  # noqa: BLE001
@@ -409,6 +410,10 @@ def az_probe(rng: random.Random, n: int, replay_case=None) -> list:
         cases = [replay_case]
     else:
         cases = [{'kind': 'azimuth', 'lat': a, 'lon': b, 'az': c, 'dt': 1750474800 * NS} for a, b, c in AZ_FIXED]
+        # elevation targets, reachable and never reached at the location (astral's ValueError after the 367-date search)
+        for a, b, c, d in ((52.5, 13.4, 62.0, 'rising'), (-33.9, 151.2, 85.0, 'setting'), (52.5, 13.4, 30.0, 'setting'),
+                           (78.2, 15.6, 40.0, 'rising')):
+            cases.append({'kind': 'elevation', 'lat': a, 'lon': b, 'az': c, 'direction': d, 'dt': 1750474800 * NS})
         for _ in range(n):
             cases.append({'kind': 'azimuth', 'lat': round(rng.uniform(-70, 70), 1), 'lon': round(rng.uniform(-180, 180), 1),
                           'az': rng.choice([0.0, 45.0, 90.0, 135.0, 180.0, 225.0, 270.0, 315.0, 359.99, round(rng.uniform(0, 360), 2)]),
@@ -419,10 +424,10 @@ def az_probe(rng: random.Random, n: int, replay_case=None) -> list:
     for c in outs:
         r = c['result']
         if r[0] == 'budget':
-            bad.append({'what': f'azimuth trigger {c["az"]} at ({c["lat"]}, {c["lon"]}): get_next did not end within {AZ_BUDGET} s',
+            bad.append({'what': f'{c["kind"]} trigger {c["az"]} at ({c["lat"]}, {c["lon"]}): get_next did not end within {AZ_BUDGET} s',
                         'case': c, 'observed': r})
         elif r[0] == 'raise' and r[1] not in ('InfiniteLoopDetectedError', 'LocationNotSetError'):
-            bad.append({'what': f'azimuth trigger {c["az"]} at ({c["lat"]}, {c["lon"]}): get_next ended with {r[1]} after '
+            bad.append({'what': f'{c["kind"]} trigger {c["az"]} at ({c["lat"]}, {c["lon"]}): get_next ended with {r[1]} after '
                                 f'{c["seconds"]} s: neither an instant nor InfiniteLoopDetectedError', 'case': c, 'observed': r})
     return outs, bad
 
@@ -441,8 +446,9 @@ def run(prop: str, tier: str, seed: int, scratch: Path, replay=None, model_ok=Tr
     per_zone: dict[str, list] = {}
     if replay:
         payload = json.loads(Path(replay).read_text())
-        if payload['case'].get('kind') == 'azimuth':
-            outs_az, bad_az = az_probe(rng, 0, {k: payload['case'][k] for k in ('kind', 'lat', 'lon', 'az', 'dt')})
+        if payload['case'].get('kind') in ('azimuth', 'elevation'):
+            outs_az, bad_az = az_probe(rng, 0, {k: payload['case'][k] for k in ('kind', 'lat', 'lon', 'az', 'dt', 'direction')
+                                                if k in payload['case']})
             return {'evaluations': 1, 'distinct_nontrivial': 1, 'rule': 'azimuth replay', 'samples': outs_az,
                     'distribution': {}, 'corr_failures': [], 'spec_violations': bad_az, 'extra': {'replay': 'azimuth'}}
         zones = [payload['case']['zone']]
@@ -608,6 +614,9 @@ def match_known(prop: str, v: dict, known: list):
             e = v['case'].get('expr', [None])
             if 'ended with EValueError' in v['what'] and '"after"' in json.dumps(e):
                 return f['id']
+        if f.get('class') == 'F20' and prop == 'C16':
+            if v['case'].get('kind') == 'elevation' and 'ended with ValueError' in v['what']:
+                return f['id']
         if f.get('class') == 'F17' and prop == 'C16':
             if v['case'].get('kind') == 'azimuth' and 'OverflowError' in v['what']:
                 return f['id']
@@ -622,7 +631,7 @@ def replay_known(prop: str, f: dict, scratch: Path):
     if 'case' not in f:
         return None
     c = f['case']
-    if c.get('kind') == 'azimuth':
+    if c.get('kind') in ('azimuth', 'elevation'):
         _, bad = az_probe(random.Random(0), 0, c)
         return bool(bad)
     res = _impl_zone(c['zone'], [c], scratch)
